@@ -155,6 +155,7 @@ class Gen:
         w('/* SHA-1 is irrelevant to decoding: stub with an arbitrary digest that reads its input in bounds */')
         w('void SHA1(const unsigned char* data, size_t count, unsigned char* result) { int k; if (count > 0) { unsigned char t = data[0] ^ data[count - 1]; (void)t; } for (k = 0; k < 20; k++) result[k] = nd8(); }')
         w('void trap(Trap t) { (void)t; V_STOP(); }')
+        w('#ifndef DEBUGFLAG\n#define DEBUGFLAG false\n#endif')
         w('#define BUFSZ %d' % bufsz)
         w('#define NF %d' % nf)
         w('static U8 buf[BUFSZ]; static U32 pos; static U8 pad[NF > 0 ? NF : 1]; static int custom_at = -1;')
@@ -195,10 +196,10 @@ class Gen:
                 w('    ' + c)
             w('  }')
         else:
-            w('  { U32 cut = nd8(); V_ASSUME(cut < pos);')
+            w('#ifdef CUT\n  { U32 cut = CUT; V_ASSUME(cut < pos);   /* one truncation point per query */\n#else\n  { U32 cut = nd8(); V_ASSUME(cut < pos);\n#endif')
             w('    /* truncated copy in an exactly sized heap object: any read past the prefix is an out-of-bounds access */')
             w('    U8* t = (U8*)malloc(cut); V_ASSUME(t != NULL || cut == 0); for (k = 0; k < BUFSZ; k++) if (k < cut) t[k] = buf[k];')
-            w('    reader.buffer.data = t; reader.buffer.length = cut; reader.debug = (nd8() & 1) != 0;')
+            w('    reader.buffer.data = t; reader.buffer.length = cut; reader.debug = DEBUGFLAG;')
             w('    wasmModuleRead(&reader, &error);')
             w('    if (error != NULL) V_WITNESS("rejected with a diagnostic"); else V_WITNESS("accepted"); }')
         w('  V_WITNESS("end"); }')
